@@ -237,7 +237,7 @@ def instances(tier):
                     inst.append(dict(label='map[region=%s,gap=%s,%s,no padding]' % ('-'.join(map(str, r)), ''.join(map(str, g)), rel),
                                      body=body_map, params={'region': r, 'gap': g, 'rel': rel, 'pad': 0}, max_paths=512, max_depth=400,
                                      timeout_ms=60000))
-    for l in ('two-a2-a3', 'three-a2-a3-ur', 'ring-no-centre', 'six-hole', 'seven-mixed', 'seven-alt', 'three-a3-dd-u6', 'three-a3-b3-a2', 'three-a2-du-d6'):
+    for l in ('two-a2-a3', 'three-a2-a3-ur', 'ring-no-centre', 'six-hole', 'seven-mixed', 'seven-alt', 'three-a3-dd-u6', 'three-a3-b3-a2', 'three-a2-du-d6', 'two-a2r-a3', 'three-ddr-a3-a2r'):
         inst.append(dict(label='stored-maps[%s]' % l, body=body_stored, params={'layout': l}, check_vacuity=False))
     # regions with two and three duct walls: the boundaries must describe the outermost wall
     for nd in ((2,) if tier == 'quick' else (2, 3)):
